@@ -56,7 +56,7 @@ def specs(ctx):
 
 
 def run(ctx):
-    drivercheck.design(ctx)
+    drivercheck.design(ctx, restart=True)
     for c in c10.mem_cfgs(ctx)[:1]:
         recs = c10.memory_states(ctx, c)
         c10.replay_states(ctx, recs, ("C18_",))
